@@ -79,6 +79,21 @@ int main(int argc, char** argv) {
       emitS("zcheck.ifgp", "IFGP " + S(in.subj) + " " + S(in.clip) + " " + S(opn) + " " + req);
       stat(usecb ? "z.with_callback" : "z.without_callback");
       stat("z.callback_calls", (long long)log.size());
+      // a second execution of the SAME object (another clip type): the callback installed once must still be in force
+      {
+        ClipType ct2 = CTS[(gz.next() % 3 + 1 + (size_t)((int)ct - 1)) % 4];
+        std::vector<int64_t> log2; g_log = &log2;
+        Paths64 sol2, solo2;
+        c.Execute(ct2, fr, sol2, solo2);
+        g_log = nullptr;
+        std::string req2 = "ZCHECK " + std::string(usecb ? "1 " : "0 ") + "0 ";
+        size_t nsol2 = 0; std::string sols2;
+        for (auto* ps : {&sol2, &solo2}) for (auto& p : *ps) for (auto& v : p) { ++nsol2; sols2 += " " + PZ(v); }
+        std::string logs2; for (auto z : log2) logs2 += " " + S(z);
+        req2 += std::to_string(nin) + ins + " " + std::to_string(nsol2) + sols2 + " " + std::to_string(log2.size()) + logs2;
+        emitS("zcheck.second-execute.ifgp", "IFGP " + S(in.subj) + " " + S(in.clip) + " " + S(opn) + " " + req2);
+        stat("z.second_execute");
+      }
 #endif
     }
     if (i % 2 == 0 && in.R <= ((int64_t)1 << 40)) {
